@@ -320,11 +320,14 @@ def parse_shim(path):
 
 
 def run_breadlog(built, box, config, check=False, cwd=None, rules=None, shim=False, trace=False,
-                 strace=False, timeout=120, env_extra=None, tmpdir=None, cfg_arg=None, async_signal=None, stdio_ops=False, stdin_tty=False):
+                 strace=False, timeout=120, env_extra=None, tmpdir=None, cfg_arg=None, async_signal=None, stdio_ops=False, stdin_tty=False,
+                 argv_override=None):
     """Run the real binary once. config: absolute path of the yaml (cfg_arg overrides what is passed)."""
     argv = [built.path, "-c", cfg_arg or config]
     if check:
         argv.append("--check")
+    if argv_override is not None:
+        argv = [built.path] + list(argv_override)
     env = {"PATH": "/usr/bin:/bin", "RUST_BACKTRACE": "0", "TMPDIR": tmpdir or box.tmp, "HOME": box.outside,
            "LANG": "C.UTF-8"}
     rec = Rec()
